@@ -111,7 +111,8 @@ func (k Keeper) CheckAndCloseAtStopLoss(ctx sdk.Context, mtp *types.MTP, pool ty
 			return fmt.Errorf("mtp stop loss price is not <=  token price")
 		}
 	} else {
-		underStopLossPrice := !mtp.StopLossPrice.IsNil() && tradingAssetPrice.GTE(mtp.StopLossPrice)
+		// a zero stop loss price means that no stop loss is set
+		underStopLossPrice := !mtp.StopLossPrice.IsNil() && !mtp.StopLossPrice.IsZero() && tradingAssetPrice.GTE(mtp.StopLossPrice)
 		if !underStopLossPrice {
 			return fmt.Errorf("mtp stop loss price is not =>  token price")
 		}
